@@ -125,6 +125,8 @@ func mul64(a, b uint64) (hi, lo uint64) {
 	return
 }
 
+var c13TextPrefixes = []string{"used, total: ", ",", "a,b;c:d ", "1,234 and ", "x_y_z ", "sum; ", "'", "1'000 ", "1.000.000 ", "\t", "\x00", "|", "~", "#", "KiB MiB ", "B", "512", "sda1", "\u00a0", "\u2009", "&nbsp", "&amp;", "%d ", "(MISSING)", "Část 1 024 ", "日本語"}
+
 func c13Case(w *rt.W, s uint64) {
 	sz := size.Size(s)
 	fail := func(key, path, got, want string) {
@@ -204,6 +206,13 @@ func c13Case(w *rt.W, s uint64) {
 		rcall{"DefaultFormatter(\"n 1 000\", FormatPretty)", "n 1 000" + pretty, bufCall("n 1 000", sp%11, size.FormatPretty)},
 		rcall{"Formatter variable (FormatPretty)", pretty, func() string { o, _ := size.Formatter(nil, sz, size.FormatPretty); return string(o) }},
 	)
+	{ // the buffer holds text already: separators of every kind a grouping routine may use as a placeholder, digits, the unit letters
+		ps := c13TextPrefixes[int(s%uint64(len(c13TextPrefixes)))]
+		calls = append(calls,
+			rcall{fmt.Sprintf("DefaultFormatter(%q, FormatPretty)", ps), ps + pretty, bufCall(ps, sp%13, size.FormatPretty)},
+			rcall{fmt.Sprintf("DefaultFormatter(%q, FormatPretty|FormatHTML)", ps), ps + html, bufCall(ps, sp%17, size.FormatPretty|size.FormatHTML)},
+		)
+	}
 	// refused parses in between (what a refused input leaves behind must not leak into the next rendering)
 	poisons := []string{"null", "true", "false", "12 kiB", `{"value":5`, "[]", `{"value":null,"unit":"B"}`, "99999999999999999999999", `"45 Kb"`, "", "{}", " null "}
 	for k := uint64(0); k < 2; k++ {
